@@ -766,6 +766,23 @@ void mmd_export_toc_opendocument(DString * out, const char * source, scratch_pad
 
 
 
+/// Export the content of a note that is printed in place.  The note is emptied
+/// meanwhile, so that a note which (directly or indirectly) refers to itself is
+/// not expanded again and again.
+static void mmd_export_note_content_opendocument(DString * out, const char * source, footnote * note, scratch_pad * scratch) {
+	if (note == NULL) {
+		return;
+	}
+
+	token * content = note->content;
+	note->content = NULL;
+
+	mmd_export_token_tree_opendocument(out, source, content, scratch);
+
+	note->content = content;
+}
+
+
 void mmd_export_token_opendocument(DString * out, const char * source, token * t, scratch_pad * scratch) {
 	if (t == NULL) {
 		return;
@@ -1699,7 +1716,7 @@ parse_citation:
 							printf("<text:note text:id=\"cite%d\" text:note-class=\"endnote\"><text:note-body>", temp_short);
 							temp_note = stack_peek_index(scratch->used_citations, temp_short - 1);
 
-							mmd_export_token_tree_opendocument(out, source, temp_note->content, scratch);
+							mmd_export_note_content_opendocument(out, source, temp_note, scratch);
 							print_const("</text:note-body></text:note>");
 						}
 					} else {
@@ -1714,7 +1731,7 @@ parse_citation:
 							printf("<text:note text:id=\"cite%d\" text:note-class=\"endnote\"><text:note-body>", temp_short);
 							temp_note = stack_peek_index(scratch->used_citations, temp_short - 1);
 
-							mmd_export_token_tree_opendocument(out, source, temp_note->content, scratch);
+							mmd_export_note_content_opendocument(out, source, temp_note, scratch);
 							print_const("</text:note-body></text:note>");
 						}
 					}
@@ -1727,7 +1744,7 @@ parse_citation:
 						printf("<text:note text:id=\"cite%d\" text:note-class=\"endnote\"><text:note-body>", temp_short);
 						temp_note = stack_peek_index(scratch->used_citations, temp_short - 1);
 
-						mmd_export_token_tree_opendocument(out, source, temp_note->content, scratch);
+						mmd_export_note_content_opendocument(out, source, temp_note, scratch);
 						print_const("</text:note-body></text:note>");
 					}
 				}
@@ -1772,7 +1789,7 @@ parse_citation:
 					printf("<text:note text:id=\"fn%d\" text:note-class=\"footnote\"><text:note-body>", temp_short);
 					temp_note = stack_peek_index(scratch->used_footnotes, temp_short - 1);
 
-					mmd_export_token_tree_opendocument(out, source, temp_note->content, scratch);
+					mmd_export_note_content_opendocument(out, source, temp_note, scratch);
 					print_const("</text:note-body></text:note>");
 				} else {
 					// This is the first time this note was used
@@ -1781,7 +1798,7 @@ parse_citation:
 					printf("<text:note text:id=\"fn%d\" text:note-class=\"footnote\"><text:note-body>", temp_short);
 					temp_note = stack_peek_index(scratch->used_footnotes, temp_short - 1);
 
-					mmd_export_token_tree_opendocument(out, source, temp_note->content, scratch);
+					mmd_export_note_content_opendocument(out, source, temp_note, scratch);
 					print_const("</text:note-body></text:note>");
 				}
 
@@ -1894,7 +1911,7 @@ parse_citation:
 					mmd_print_string_opendocument(out, temp_note->clean_text, true);
 
 					printf("<text:note text:id=\"gn%d\" text:note-class=\"glossary\"><text:note-body>", temp_short);
-					mmd_export_token_tree_opendocument(out, source, temp_note->content, scratch);
+					mmd_export_note_content_opendocument(out, source, temp_note, scratch);
 					print_const("</text:note-body></text:note>");
 				}
 
